@@ -163,6 +163,39 @@ def two_definers_cases(rng, n):
     return cases
 
 
+def tainted_builder_cases(rng, n):
+    """directed (P)-only scenario (seeded/C13_r5): an ItemSpace (and a cells in it) created for the first time by a
+    formula that has ALREADY caught the failure of another cells (its frame is tainted: its own value is not kept).
+    Handles are taken from outside afterwards; then the ItemSpace is discarded (del S[k], clear_items, new parameter
+    formula, del M.S): every handle must die and S must list nothing of it."""
+    cases = []
+    for _ in range(n):
+        k = rng.randint(0, 3)
+        ft = [[c, ["const", rng.randint(1, 9)]] for c in CELL_NAMES]
+        ops = [["NewSpace", 0, "S0", [], True],                        # H1 = S (parameters)
+               ["NewCells", 1, "c0"],                                  # H2 = S.c0
+               ["NewSpace", 0, "S1", [], False],                       # H3 = T
+               ["Py", "H[3].S = H[1]\nH[3].new_cells('bad', formula='def bad():\\n    raise ValueError(1)')\n"
+                      "H[3].new_cells('c', formula='def c(x):\\n    try:\\n        bad()\\n    except ValueError:\\n        pass\\n    return S[x].c0(x)')\n"
+                      "H.append(H[3].cells['c'])"],                    # H4 = T.c
+               ["Eval", 4, k],                                         # builds S[k] under the tainted frame of T.c(k)
+               ["GetItem", 1, k],                                      # H5 = S[k], from outside
+               ["Take", 5, "c0"]]                                      # H6 = S[k].c0
+        trig = rng.choice(["delitem", "clearitems", "setparams", "delspace"])
+        if trig == "delitem":
+            ops += [["DelItem", 1, k]]
+        elif trig == "clearitems":
+            ops += [["ClearItems", 1]]
+        elif trig == "setparams":
+            ops += [["SetParams", 1, True]]
+        else:
+            ops += [["DelAttr", 0, "S0"]]
+        ops += [["Py", "import modelx as _mx\nfrom modelx.core.errors import DeletedObjectError as _D\n"
+                       "for _h in (H[5], H[6]):\n    try:\n        _h.name\n        raise AssertionError('a handle into the discarded ItemSpace still works: %r' % _h)\n    except _D:\n        pass\n"]]
+        cases.append({"ftab": ft, "ops": ops, "full": "del", "avoid": False, "gen": None, "profile": "tainted-builder"})
+    return cases
+
+
 # --------------------------------------------------------------------------
 # emitting Coq terms
 # --------------------------------------------------------------------------
@@ -299,6 +332,7 @@ def run(tier, seed, rng):
     corpus = [(name, d) for name, d in corpus if not d["case"].get("nested")]
     cases = [dict(d["case"], profile="corpus:" + name) for name, d in corpus] + gen_cases(rng, tier)
     cases += two_definers_cases(random.Random(rng.getrandbits(64)), 60 if tier == "quick" else 600)
+    cases += tainted_builder_cases(random.Random(rng.getrandbits(64)), 24 if tier == "quick" else 200)
     # nested class ((P) only): its own generator, seeded after the model-tied cases were drawn
     rng_n = random.Random(rng.getrandbits(64))
     ncases = [dict(d["case"], profile="corpus:" + name) for name, d in ncorpus] + \
